@@ -65,6 +65,7 @@ structure St where
   nextSid : Nat := 0
   sessions : List Nat := []              -- active sessions
   streams : List Nat := []               -- sessions with an open listening stream
+  broken : List Nat := []                -- sessions whose registered stream fails every write (peer reset, failing writer)
   delivered : List (Nat × Frame) := []   -- write log
   nextId : Nat := 0                      -- server-wide request counter
   pending : List PEntry := []
@@ -76,6 +77,7 @@ inductive Op where
   | newSession                      -- initialize (Streamable) / GET /sse (legacy: session and stream at once)
   | delSession (s : Nat)            -- DELETE (Streamable) / disconnect (legacy SSE)
   | openStream (s : Nat)            -- GET (Streamable)
+  | breakStream (s : Nat)           -- GET (Streamable) whose stream is registered but fails every write from now on
   | closeStream (s : Nat)
   | send (s m : Nat)                -- SendNotification(s, …) tagged m
   | broadcast (m : Nat)
@@ -88,7 +90,7 @@ inductive Op where
   deriving DecidableEq, Repr
 
 inductive Err where
-  | stateless | noStream | notFound | notInitialized | allFailed | unsupported | disabled
+  | stateless | noStream | writeFailed | notFound | notInitialized | allFailed | unsupported | disabled
   deriving DecidableEq, Repr
 
 inductive Ret where
@@ -109,13 +111,16 @@ def keyKind (f : Facts) : Server → KeyKind
 
 def hasStream (s : St) (a : Nat) : Bool := s.streams.contains a
 
+/-- a write to session `a`'s stream succeeds: it has a registered stream and that stream is not broken. -/
+def reaches (s : St) (a : Nat) : Bool := hasStream s a && !s.broken.contains a
+
 def notifFrame (a m : Nat) : Nat × Frame := (a, ⟨.notif, a, m⟩)
 
 /-- can a notification for session `a` be written? (Streamable: its GET stream exists; legacy SSE: session exists and
     is initialized; stdio: the one session) -/
 def canNotify (srv : Server) (f : Facts) (s : St) (a : Nat) : Except Err Unit :=
   match srv with
-  | .streamable _ => if hasStream s a then .ok () else .error .noStream
+  | .streamable _ => if !hasStream s a then .error .noStream else if s.broken.contains a then .error .writeFailed else .ok ()
   | .legacySse => if !s.sessions.contains a then .error .notFound else if !f.sseInitialized then .error .notInitialized else .ok ()
   | .stdio => if a = 0 then .ok () else .error .notFound
 
@@ -153,16 +158,25 @@ def step (srv : Server) (f : Facts) (s : St) : Op → St × Ret
     | .stdio => (s, .err .unsupported)
   | .delSession a =>
     if s.sessions.contains a then
-      ({ s with sessions := s.sessions.filter (· ≠ a), streams := s.streams.filter (· ≠ a) }, .ok)
+      ({ s with sessions := s.sessions.filter (· ≠ a), streams := s.streams.filter (· ≠ a), broken := s.broken.filter (· ≠ a) }, .ok)
     else (s, .err .notFound)
   | .openStream a =>
     match srv with
     | .streamable false =>
-      if s.sessions.contains a then ({ s with streams := s.streams.filter (· ≠ a) ++ [a] }, .ok) else (s, .err .notFound)
+      if s.sessions.contains a then
+        ({ s with streams := s.streams.filter (· ≠ a) ++ [a], broken := s.broken.filter (· ≠ a) }, .ok)
+      else (s, .err .notFound)
+    | _ => (s, .err .unsupported)
+  | .breakStream a =>
+    match srv with
+    | .streamable false =>
+      if s.sessions.contains a then
+        ({ s with streams := s.streams.filter (· ≠ a) ++ [a], broken := s.broken.filter (· ≠ a) ++ [a] }, .ok)
+      else (s, .err .notFound)
     | _ => (s, .err .unsupported)
   | .closeStream a =>
     match srv with
-    | .streamable false => ({ s with streams := s.streams.filter (· ≠ a) }, .ok)
+    | .streamable false => ({ s with streams := s.streams.filter (· ≠ a), broken := s.broken.filter (· ≠ a) }, .ok)
     | .legacySse => ({ s with sessions := s.sessions.filter (· ≠ a), streams := s.streams.filter (· ≠ a) }, .ok)
     | _ => (s, .err .unsupported)
   | .send a m =>
@@ -176,7 +190,7 @@ def step (srv : Server) (f : Facts) (s : St) : Op → St × Ret
     match srv with
     | .streamable true => (s, .err .stateless)
     | .streamable false =>
-      let reached := s.sessions.filter (hasStream s)
+      let reached := s.sessions.filter (reaches s)
       let failedN := s.sessions.length - reached.length
       ({ s with delivered := s.delivered ++ reached.map (fun a => notifFrame a m) },
        if failedN = s.sessions.length ∧ failedN > 0 then .count 0 (some .allFailed) else .count reached.length none)
@@ -186,7 +200,7 @@ def step (srv : Server) (f : Facts) (s : St) : Op → St × Ret
     | .streamable true => (s, .err .stateless)
     | .streamable false =>
       let chosen := s.sessions.filter (sel.contains ·)
-      let reached := chosen.filter (hasStream s)
+      let reached := chosen.filter (reaches s)
       let failedN := chosen.length - reached.length
       ({ s with delivered := s.delivered ++ reached.map (fun a => notifFrame a m) },
        if failedN > 0 ∧ reached.length = 0 then .counts 0 failedN (some .allFailed) else .counts reached.length failedN none)
@@ -198,6 +212,8 @@ def step (srv : Server) (f : Facts) (s : St) : Op → St × Ret
       if !sessionExists srv s a then (s, .err .notFound) else
       -- the counter is consumed before the stream is looked up
       if !streamOk srv s a then ({ s with nextId := s.nextId + 1 }, .err .noStream) else
+      -- the frame cannot be written: the entry registered for it is removed again by the deferred delete
+      if s.broken.contains a then ({ s with nextId := s.nextId + 1 }, .err .writeFailed) else
       match keyOfReq (keyKind f srv) (.int (Int.ofNat (s.nextId + 1))) with
       | none => ({ s with nextId := s.nextId + 1 }, .err .unsupported)
       | some key =>
